@@ -88,7 +88,15 @@ def install(rt: Runtime) -> Runtime:
         return out
     ex["operator.itemgetter"] = fn(lambda i: (lambda x: x[i]))
     ex["math.isnan"] = fn(lambda v: isinstance(v, float) and math.isnan(v))
-    ex["os.path.basename"] = fn(lambda p: p.rsplit("/", 1)[-1])
+    import posixpath as _pp
+    for _n in ("basename", "dirname", "join", "split", "splitext", "normpath", "isabs", "relpath", "commonprefix"):
+        ex[f"os.path.{_n}"] = fn(getattr(_pp, _n))
+    ex["os.path.abspath"] = fn(lambda p: _pp.normpath(p if _pp.isabs(p) else _pp.join("/cwd", p)))
+    ex["os.path.pardir"] = ".."
+    ex["os.path.sep"] = "/"
+    ex["os.sep"] = "/"
+    ex["os.pardir"] = ".."
+    ex["os.curdir"] = "."
     ex["time.time"] = fn(lambda: 0.0)
 
     # ---- wider slice of itertools / functools / collections / operator / math ------------------------------------
@@ -113,7 +121,8 @@ def install(rt: Runtime) -> Runtime:
         if isinstance(v, Mat):
             return [Vec.view(r, v.dtype) for r in v.rows]
         if isinstance(v, (set, frozenset)):
-            return sorted(v, key=repr)
+            from .abseval import set_items
+            return set_items(v)
         if isinstance(v, dict):
             return list(v)
         if isinstance(v, (list, tuple, str, range)):
@@ -330,7 +339,16 @@ def install(rt: Runtime) -> Runtime:
         vals = v.vals if isinstance(v, Vec) else v
         return sum(1 if x is True else (0 if x is False else x) for x in vals)
 
-    def np_sort(v, kind=None):
+    def np_sort(v, axis=-1, kind=None):
+        if isinstance(v, Mat):
+            if axis in (-1, 1):
+                return Mat([sorted(r) for r in v.rows])
+            if axis == 0:
+                cols = [sorted(c) for c in zip(*v.rows)]
+                return Mat([list(r) for r in zip(*cols)])
+            if axis is None:
+                return Vec(sorted(x for r in v.rows for x in r))
+            raise Unsupported("sort axis")
         vals = v.vals if isinstance(v, Vec) else list(v)
         return Vec(sorted(vals))
 
